@@ -3,6 +3,7 @@ import json, os
 from vlib import core, tracev
 
 REASONS = {
+    "C02": ["idempotent producing"],
     "C01": ["promise called twice", "never produced", "never had its promise called", "not zero after all promises", "a Flush never returned",
             "a call never returned", "Close did not return", "record produced twice"],
     "C03": ["more records accepted", "more bytes accepted", "Flush returned nil before", "blocked although there was room", "counters differ",
@@ -19,7 +20,10 @@ def owner(why):
 
 
 def run(ctx, prop, n=None):
-    ctx.design("Admit", "Admit_mc.cfg", timeout=900)
+    if prop == "C02":
+        ctx.design("Idem", "Idem_mc.cfg", timeout=900)
+    else:
+        ctx.design("Admit", "Admit_mc.cfg", timeout=900)
     n = n or (400 if ctx.tier == "quick" else 4000)
     out = os.path.join(ctx.work, "prod_trace_raw.ndjson")
     if os.path.exists(out):
@@ -43,7 +47,7 @@ def run(ctx, prop, n=None):
     mine = 0
     for s, line, why, ev in rej:
         p = owner(why)
-        if p != prop and not (prop == "C01" and p not in ("C03", "C14")):
+        if p != prop and not (prop == "C01" and p not in ("C02", "C03", "C14")):
             continue
         mine += 1
         sc = json.loads(s[0]["scenario"]) if s and "scenario" in s[0] else None
